@@ -787,6 +787,9 @@ class Env:
         self.n["poll"] += 1
         first = self.call.get("abort")
         a = first is not None and i >= first
+        at = self.call.get("abort_at")
+        if at is not None and self.clock.t - self.call_t0 >= g(at):
+            a = True  # a shutdown flag raised at a moment in time, whether or not anyone is looking
         self.trace.append(("poll", i, a, self.now()))
         self.maybe_fault("abort_if", self.tick("abort_if"))
         style = self.call.get("abort_style")
